@@ -55,19 +55,22 @@ StartLists == {s \in SeqsUpTo({Obj(i, 0) : i \in Ids}, MaxLen) : NoDup(s)}
 SliceBs == (SliceLoB..SliceHiB) \cup {NoneIdx}
 QuerySets == SeqsUpTo(Ids, 2)
 
-AllOps ==
+\* (TLC evaluates constant-level definitions when it starts: outside "full" mode the vocabulary is not needed, and with
+\* the constants of the walks it has several hundred thousand elements)
+AllOps == IF Mode # "full" THEN {} ELSE
        {[op |-> k, x |-> x] : k \in {"append", "add", "remove", "removeid"}, x \in Objs}
   \cup {[op |-> k, xs |-> xs] : k \in {"extend", "iadd", "union", "isub", "addop", "subop"}, xs \in ArgLists}
   \cup {[op |-> k, i |-> i, x |-> x] : k \in {"insert", "setitem"}, i \in IdxLo..IdxHi, x \in Objs}
   \cup {[op |-> k, i |-> i] : k \in {"pop", "delitem", "getitem"}, i \in IdxLo..IdxHi}
   \cup {[op |-> k] : k \in {"poplast", "sort", "sortrev", "reverse", "copy", "pickle", "deepcopy", "swap"}}
   \cup {[op |-> "setslice", a |-> a, b |-> b, xs |-> xs] : a \in SliceBs, b \in SliceBs, xs \in ArgLists}
+  \cup {[op |-> "setslice2", a |-> a, b |-> b, xs |-> xs] : a \in {NoneIdx, 0, 1, -1}, b \in {NoneIdx, 0, 2, -1}, xs \in ArgLists}
   \cup {[op |-> k, a |-> a, b |-> b] : k \in {"delslice", "getslice"}, a \in SliceBs, b \in SliceBs}
   \cup {[op |-> "query", qs |-> q] : q \in QuerySets}
   \cup {[op |-> "rename", i |-> i, nid |-> n] : i \in IdxLo..IdxHi, n \in Ids}
 
 \* from a start state WITH a derived list: the operations that change a list (the derived list must not notice)
-DerOps == {op \in AllOps : (Mutating(op) /\ (op.op = "setslice" => Len(op.xs) <= 1)) \/ op.op = "swap"}
+DerOps == {op \in AllOps : (Mutating(op) /\ (op.op \in {"setslice", "setslice2"} => Len(op.xs) <= 1)) \/ op.op = "swap"}
 
 \* ------------------------------------------------------------- pseudo-random draws
 LCG(r) == (r * 75 + 74) % 65537
@@ -78,7 +81,7 @@ Kinds == <<"append", "add", "remove", "removeid", "extend", "iadd", "union", "is
            "insert", "setitem", "pop", "delitem", "getitem", "poplast", "sort", "sortrev", "reverse",
            "copy", "pickle", "setslice", "delslice", "getslice", "query", "rename",
            "insert", "setitem", "pop", "delitem", "setslice", "extend", "append", "remove",
-           "swap", "swap", "deepcopy", "copy">>
+           "swap", "swap", "deepcopy", "copy", "setslice2", "setslice2">>
 DObj(d1, d2) == Obj(Pick(IdSeq, d1), d2 % 2)
 \* objects drawn with a bias towards ids that are (not) in the list make both the
 \* succeeding and the failing forms frequent
@@ -92,7 +95,7 @@ DrawOp(r) ==
     [] k \in {"insert", "setitem"} -> [op |-> k, i |-> DIdx(d[2]), x |-> DObj(d[3], d[4])]
     [] k \in {"pop", "delitem", "getitem"} -> [op |-> k, i |-> DIdx(d[2])]
     [] k \in {"poplast", "sort", "sortrev", "reverse", "copy", "pickle", "deepcopy", "swap"} -> [op |-> k]
-    [] k = "setslice" -> [op |-> k, a |-> DSlice(d[2]), b |-> DSlice(d[3]), xs |-> DList(SubSeq(d, 4, 12))]
+    [] k \in {"setslice", "setslice2"} -> [op |-> k, a |-> DSlice(d[2]), b |-> DSlice(d[3]), xs |-> DList(SubSeq(d, 4, 12))]
     [] k \in {"delslice", "getslice"} -> [op |-> k, a |-> DSlice(d[2]), b |-> DSlice(d[3])]
     [] k = "query" -> [op |-> k, qs |-> [j \in 1..(d[2] % 3) |-> Pick(IdSeq, d[2 + j])]]
     [] k = "rename" -> [op |-> k, i |-> DIdx(d[2]), nid |-> Pick(IdSeq, d[3])]
@@ -185,6 +188,7 @@ InvStep0 ==
   /\ (op.op = "setitem" /\ last.raises = "none") =>
         /\ Len(post) = Len(pre)
         /\ \E p \in 1..Len(pre) : post = [pre EXCEPT ![p] = op.x] /\ p = (IF op.i < 0 THEN Len(pre) + op.i ELSE op.i) + 1
+  /\ (op.op = "setslice2" /\ last.raises = "none") => Len(post) = Len(pre) /\ SetOf(op.xs) \subseteq SetOf(post)
   /\ (op.op = "delslice") => \E lo, hi \in 0..Len(pre) : post = SubSeq(pre, 1, lo) \o SubSeq(pre, hi + 1, Len(pre))
   /\ (op.op = "setslice" /\ last.raises = "none") =>
         \E lo, hi \in 0..Len(pre) : post = SubSeq(pre, 1, lo) \o op.xs \o SubSeq(pre, hi + 1, Len(pre))
@@ -198,6 +202,15 @@ InvStep == last.op.op = "swap" \/ InvStep0
 Constr ==
   /\ Len(hist) <= Depth
   /\ (Emit /\ Len(hist) = Depth) => PrintT(ToJson([start |-> start, ops |-> hist, walk |-> walk, der0 |-> der0]))
+
+\* "full" mode with Depth = 1 is the whole transition relation: every enabled operation from every start state.
+\* Printing one line per (start state, operation) is slow (a JSON conversion per behaviour); this constraint prints
+\* one line per START STATE with the set of its enabled operations and cuts the search there -- the driver forms
+\* the one-step behaviours from it (same family, same specification)
+ConstrSets ==
+  /\ Len(hist) = 0
+  /\ Emit => PrintT(ToJson([start |-> start, der0 |-> der0,
+                            opset |-> {op \in (IF der0 = "none" THEN AllOps ELSE DerOps) : OpAllowed(op, st)}]))
 
 \* exhaustive runs: the history variables do not add behaviour
 \* (the derived list is left out as well: it changes only by being REPLACED with a list some operation returned --
